@@ -328,9 +328,13 @@ def gen_c07(tier):
         shapes_list = [sh for sh in agree_shapes(tier) if not sh.malformed_by_shape and sh.total_len <= lim(sh)]
         # a property whose decoder re-maps errors (Response Topic): a cut inside it must still be 'incomplete'
         shapes_list += [sh for sh in SH.v5_shapes("quick") if sh.name == "publish_q0_t1_p1_x08l1" and sh.name not in [x.name for x in shapes_list]]
+        # Payload Format Indicator = 1 with a two-byte payload: a cut inside a multi-byte character must be
+        # 'incomplete', not InvalidPayloadFormat (a UTF-8 check that runs before the payload is completely read)
+        shapes_list.append(G.v5_publish(0, 1, 2, [(0x01, 1)]))
         for sh in shapes_list:
             fn, code, w, unwind, meta = G.emit_prefix(sh)
-            m.add(fn, code, w, unwind, meta=meta)
+            # asserting valid-class stubs: a validator reached with bytes that are not a complete field is reported
+            m.add(fn, code, w, unwind, stubs=G.STUBS_PREFIX, meta=meta)
         m.write(srcdir, chunk=6)
     return g
 
